@@ -3,3 +3,4 @@
 mod host;
 mod machine;
 mod ctl_io;
+mod input;
